@@ -155,6 +155,14 @@ def mutants(design, rng, per_class=3):
         if sub["k"] != "sig":
             return False
         w = next(s["w"] for s in m["sigs"] if s["n"] == sub["n"])
+        # … or owned by, and connected inside, a module of this very design that is elaborated earlier
+        mi_here = next(k for k, mm in enumerate(d["modules"]) if mm is m)
+        donors = [(mm["name"], pc[1]["n"]) for mm in d["modules"][:mi_here] for i2 in mm["insts"] for pc in i2["conns"]
+                  if pc[1]["k"] == "sig" and next(s2["w"] for s2 in mm["sigs"] if s2["n"] == pc[1]["n"]) == w]
+        if donors and rng.random() < 0.5:
+            frm, sg = rng.choice(donors)
+            inst["conns"][ci][1] = set_at(c, list(path), {"k": "orphan", "w": w, "owner": "module", "from": frm, "sig": sg})
+            return
         inst["conns"][ci][1] = set_at(c, list(path), {"k": "orphan", "w": w, "owner": rng.choice(["none", "other"])})
     for s in pick(lambda s: s[4] == "sig"):
         mutate("orphan", s, orphan)
@@ -218,8 +226,19 @@ def corpus():
           "insts": [{"n": "i", "of": {"k": "module", "name": "HasB"}, "conns": [["bp", {"k": "anon", "fields": [["x", {"k": "sig", "n": "s3"}]]}]]}]}]}
     d3 = {"bundles": [], "top": "Top", "modules": [two, {"name": "Top", "sigs": [{"n": "s", "w": 4, "port": True, "dir": "none"}], "bundles": [],
           "insts": [{"n": "i", "of": {"k": "module", "name": "Two"}, "conns": [["a", {"k": "slice", "p": {"k": "sig", "n": "s"}, "i": {"s": 4, "e": 5, "st": None}}], ["b", {"k": "slice", "p": {"k": "sig", "n": "s"}, "i": {"i": 0}}]]}]}]}
+    # an extra connection given last, on an instance array / a pair / a plain instance of the top module
+    import gen_design as _gd
+    extras = []
+    for kindkey, extra in (("array", {"array": 2}), ("pair", {"pair": ["p", "n"]}), ("plain", {})):
+        R = copy.deepcopy(_gd.LEAVES[3])
+        sigs = [{"n": "a", "w": 1, "port": True, "dir": "none"}, {"n": "b", "w": 1, "port": False, "dir": "none"}, {"n": "zz", "w": 1, "port": False, "dir": "none"}]
+        bundles = [{"n": "d1", "of": "Diff", "port": False}, {"n": "d2", "of": "Diff", "port": False}] if kindkey == "pair" else []
+        good = [["p", {"k": "bundle", "n": "d1"}], ["n", {"k": "bundle", "n": "d2"}]] if kindkey == "pair" else [["p", {"k": "sig", "n": "a"}], ["n", {"k": "sig", "n": "b"}]]
+        inst = dict({"n": "x1", "of": R, "conns": good + [["no_such_port", {"k": "sig", "n": "zz"}]]}, **extra)
+        extras.append({"class": "extra_connection", "site": f"corpus:last-on-{kindkey}",
+                       "design": {"bundles": [_gd.DIFF] if kindkey == "pair" else [], "modules": [{"name": "Top", "sigs": sigs, "bundles": bundles, "insts": [inst]}], "top": "Top"}})
     return [{"class": "missing_connection", "site": "corpus", "design": d1}, {"class": "width_mismatch", "site": "corpus", "design": d2},
-            {"class": "bad_index", "site": "corpus", "design": d3}]
+            {"class": "bad_index", "site": "corpus", "design": d3}] + extras
 
 
 def impl(case):
@@ -240,6 +259,20 @@ def impl(case):
             res[entry] = "returned"
         except Exception as ex:  # noqa
             res[entry] = f"raised {type(ex).__name__}: {str(ex)[-100:]}"
+    # … and the three of them one after the other on one and the same design object: a failed call must not prepare
+    # the ground for the next one to return
+    try:
+        b = build.build(case["design"], case.get("style", "proc"))
+        for entry, fn in (("elaborate", lambda: h.elaborate(b.top)), ("to_proto", lambda: h.to_proto(b.top)),
+                          ("netlist", lambda: h.netlist(b.top, io.StringIO(), fmt="spice")), ("to_proto", lambda: h.to_proto(b.top))):
+            key = f"then_{entry}"
+            try:
+                fn()
+                res[key] = "returned"
+            except Exception as ex:  # noqa
+                res[key] = f"raised {type(ex).__name__}: {str(ex)[-100:]}"
+    except Exception as ex:  # noqa
+        pass
     return res
 
 
@@ -273,7 +306,7 @@ def run(ctx):
         if cls == "name_clash":
             # clashing names are an export-level fault (exporting.py:export_module_name is the anchored mechanism):
             # `elaborate` returns modules, not a package; to_proto and netlist must raise.
-            returned = [k for k in returned if k != "elaborate"]
+            returned = [k for k in returned if k not in ("elaborate", "then_elaborate")]
         if returned:
             rep.fail("pred", {"stream": "mutants", "case": m}, {"why": f"ill-formed design ({cls} at {m['site']}: {o['src']['error']}) accepted by {returned}", "impl": im},
                      None)
